@@ -515,3 +515,11 @@ Definition misc_create_time (m : misc) : option Z :=
 Definition get_u64 (mems : list (Z * Z)) (k sp : Z) : option unit :=
   if readable_u64 mems k sp then Some tt else None.
 Definition or_else_optz (a : option Z) (f : unit -> option Z) : option Z := match a with Some _ => a | None => f tt end.
+
+(* ------------------------------------------------------------------ streams that are too short *)
+(* MinidumpBreakpadInfo::read / MinidumpMiscInfo::read succeed iff the stream holds the whole MINIDUMP_BREAKPAD_INFO (12 bytes) /
+   at least MINIDUMP_MISC_INFO (24 bytes; longer revisions only add fields); the processor treats a failed read as `no stream` *)
+Definition BREAKPAD_INFO_SIZE : Z := 12.
+Definition MISC_INFO_SIZE : Z := 24.
+Definition bp_of_stream (len : Z) (b : breakpad) : option breakpad := if BREAKPAD_INFO_SIZE <=? len then Some b else None.
+Definition misc_of_stream (len : Z) (m : misc) : option misc := if MISC_INFO_SIZE <=? len then Some m else None.
